@@ -90,12 +90,14 @@ Proof. exact nonvacuous. Qed.
 Print Assumptions C01_nonvacuous.
 
 (* D5: without no_marker the statement is false: 58=FIX.x (tag ending in 8, value starting "FIX.") and
-   58="see 8=FIX.4.4 spec" are well-formed, yet the decoder drops their whole frame *)
+   58="see 8=FIX.4.4 spec" are well-formed, yet the decoder returns no message for their frame (the part before the inner
+   marker is dropped as a fragment, the rest is not a frame): the reader delivers nothing *)
 Theorem C01_marker_refuted : forall m, m = ex_marker_tag \/ m = ex_marker_value ->
   wf_msg GenGroups.table m = true /\ flat_msg m = true /\ small_frame (ex_frame m)
   /\ no_marker (ex_frame m) = false
   /\ (exists sess', encode beginstring m ex_sess ex_time false = Ok (ex_frame m, sess'))
-  /\ decode GenGroups.table beginstring (ex_frame m) true = Ok (None, zlen (ex_frame m), None).
+  /\ (exists n, decode GenGroups.table beginstring (ex_frame m) true = Ok (None, n, None))
+  /\ snd (fst (reader_run GenGroups.table beginstring [] [ex_frame m])) = [].
 Proof. exact marker_refuted. Qed.
 Print Assumptions C01_marker_refuted.
 
